@@ -129,9 +129,10 @@ def run(ctx):
 
     # memo tables hold exactly what the un-memoised helpers compute
     bad = 0
-    for fn in (uv._compressed_index, uv.locations_compressed, uv.locations_index_slices, mc._upper_triangle_indices):
-        info = fn.cache_info()
-        ctx.count(f"memo_entries:{fn.__name__}", info.currsize)
+    for mod in (uv, mc):
+        for name, fn in list(vars(mod).items()):
+            if callable(getattr(fn, "cache_info", None)):
+                ctx.count(f"memo_entries:{name}", fn.cache_info().currsize)
     for N in range(1, 4):
         for W in range(1, 6):
             for b in range(W):
